@@ -9,6 +9,11 @@
 (*   ranked : k, hits = [[docnum, score]..] of search(limit=k) (k=0: None)    *)
 (*            cmp = "full": documents, scores and order must be the spec's     *)
 (*            cmp = "members": only which/how many documents (C01)             *)
+(*   layouts: maps = per segment layout of one deletion-free corpus, the hits   *)
+(*            [[document, score rank]..] of the same query (documents named by  *)
+(*            their docnum in the first layout): all layouts must agree (C09)    *)
+(*   termstats: f, t, n, df, cf4, totlen, docs = [[docnum, weight*4, length]..]  *)
+(*            the statistics the weighting formulas are fed with (C09)           *)
 (* A REJECT line carries what the specification expected instead.             *)
 EXTENDS QuerySem, Json, IOUtils
 Cases == JsonDeserialize(IOEnv.TRACE_FILE)
@@ -43,8 +48,26 @@ SuggestFacts(idx, o) ==
                                /\ \A t \in (cand \ {o.word}) \ LS : /\ Len(L) >= o.limit
                                                                      /\ \A x \in LS \ {o.word} : ~SugBetter(idx, o, t, x)]
 
+\* ---- statistics behind the weighting formulas (C09) ---------------------------
+FLen(idx, d, f) == Cardinality({i \in DOMAIN Toks(idx, d, f) : Toks(idx, d, f)[i] # Gap})
+RECURSIVE SumFn(_, _)
+SumFn(F, S) == IF S = {} THEN 0 ELSE LET x == CHOOSE y \in S : TRUE IN F[x] + SumFn(F, S \ {x})
+TermStats(idx, f, t) ==
+  LET has == {d \in DocIds(idx) : Tf(idx, d, f, t) > 0}
+  IN [n |-> Cardinality(DocIds(idx)),
+      df |-> Cardinality(has),
+      cf4 |-> SumFn([d \in has |-> Tf(idx, d, f, t) * Doc(idx, d).b4], has),
+      totlen |-> SumFn([d \in DocIds(idx) |-> FLen(idx, d, f)], DocIds(idx)),
+      docs |-> SetToSortSeq({<<d, Tf(idx, d, f, t) * Doc(idx, d).b4, FLen(idx, d, f)>> : d \in has},
+                            LAMBDA a, b : a[1] < b[1])]
+LayoutsOK(m, o) == /\ \A i \in DOMAIN o.maps : ToSet(o.maps[i]) = ToSet(o.maps[1])
+                   /\ {p[1] : p \in ToSet(o.maps[1])} = DOMAIN m
+                   /\ \A i \in DOMAIN o.maps : Cardinality(ToSet(o.maps[i])) = Len(o.maps[i])
+
 Expected(idx, m, q, o) ==
   CASE o.kind = "ids" -> [ids |-> Ids(m)]
+    [] o.kind = "layouts" -> [same_in_every_layout |-> TRUE, documents |-> Ids(m)]
+    [] o.kind = "termstats" -> TermStats(idx, o.f, o.t)
     [] o.kind = "count" -> [n |-> Cardinality(DOMAIN m)]
     [] o.kind = "ranked" -> [hits |-> Hits(m, TopK(m, o.k)), scored |-> Scored(q)]
     [] o.kind = "error" -> [noerror |-> TRUE]
@@ -55,6 +78,9 @@ Expected(idx, m, q, o) ==
 
 ObsOK(idx, m, q, o) ==
   CASE o.kind = "ids" -> o.ids = Ids(m)
+    [] o.kind = "layouts" -> LayoutsOK(m, o)
+    [] o.kind = "termstats" -> LET S == TermStats(idx, o.f, o.t) IN
+         /\ o.n = S.n /\ o.df = S.df /\ o.cf4 = S.cf4 /\ o.totlen = S.totlen /\ o.docs = S.docs
     [] o.kind = "count" -> o.n = Cardinality(DOMAIN m)
     [] o.kind = "error" -> FALSE      \* a search of a well-formed query never raises
     [] o.kind = "suggest" -> LET F == SuggestFacts(idx, o) IN
